@@ -15,6 +15,9 @@
      serde: serialize_node_device_configuration, to_proto/from_proto of the multi-device fields gated
      on ir_version 11 with _resolve_sharded_value / _resolve_node_device_configurations,
      _multi_device._check_device_configurations.
+   The model has a main graph, one function and arbitrarily nested subgraph bodies (scinfo): name resolution
+   on deserialization goes through the scope stack (resolve), the cloner enters a node's outputs into its
+   value map after the node's bodies (pending), the IR-version gate is not applied inside bodies (rt_keep).
    Executable definitions only. *)
 From Coq Require Import ZArith List Bool Lia.
 From IRV Require Import Base.Exn.
